@@ -30,6 +30,8 @@ def _log_print_lines(fname):
                  (isinstance(f, ast.Attribute) and isinstance(f.value, ast.Name)
                   and f.value.id in ('log', 'logger', 'logging'))
         is_print = isinstance(f, ast.Name) and f.id == 'print'
+        if isinstance(f, ast.Name) and f.id == 'capture_error_state':
+            is_log = True       # diagnostic text of captured #VALUE!/#DIV/0! (never part of a value)
         if is_print:
             printlines.update(range(node.lineno, node.end_lineno + 1))
         if is_log or is_print:
@@ -98,7 +100,8 @@ def install():
     import pycel.excelcompiler as ec
     import pycel.excelformula as ef
     tables = {}
-    for mod in (ec, ef):
+    import pycel.excelutil as eu
+    for mod in (ec, ef, eu):
         tables[mod.__file__] = _log_print_lines(mod.__file__)
     _origf = oi.FormatValueInterceptor.trace_op
 
@@ -174,6 +177,57 @@ def install():
         return _ocreate(self, size)
     bl.SymbolicBoundedIntTuple._create_up_to = _create_up_to
 
+    # 6. operator.pow with a symbolic base and a concrete exponent that is not a non-negative int:
+    # CrossHair's real-valued model of ** knows neither complex results nor OverflowError.
+    import operator
+    import sys as _sys
+    from crosshair.core import proxy_for_type
+    from crosshair.statespace import context_statespace
+    DBL_MAX = _sys.float_info.max
+    _cnt = [0]
+
+    def _pow_model(a, b):
+        bf = float(b)
+        if bf == 0.0:
+            return 1.0
+        if a == 0:
+            if bf < 0:
+                raise ZeroDivisionError("0.0 cannot be raised to a negative power")
+            return 0.0
+        if a < 0 and bf != int(bf):
+            return complex(0.5, 0.5)        # CPython: negative base, fractional exponent -> complex
+        mag = -a if a < 0 else a
+        if bf >= 1.0:
+            if mag > DBL_MAX ** (1.0 / bf):
+                raise OverflowError("(34, 'Numerical result out of range')")
+        elif bf <= -1.0:
+            if mag < 1.0 / (DBL_MAX ** (1.0 / -bf)):
+                raise OverflowError("(34, 'Numerical result out of range')")
+        with NoTracing():
+            name = "powres" + context_statespace().uniq()
+        return proxy_for_type(float, name)   # value unconstrained (totality/type only)
+
+    def _pow(a, b, *m):
+        with NoTracing():
+            use = (not m and isinstance(a, (bl.SymbolicFloat, bl.SymbolicInt)) and type(b) in (int, float)
+                   and (type(b) is float or b < 0 or isinstance(a, bl.SymbolicFloat)))
+            small = (not m and isinstance(a, bl.SymbolicInt) and type(b) is int and 0 <= b <= 8)
+        if use:
+            return _pow_model(a, b)
+        if small:       # exact: repeated multiplication instead of z3's power operator
+            r = 1
+            for _ in range(b):
+                r = r * a
+            return r
+        with NoTracing():
+            big = (not m and isinstance(a, bl.SymbolicInt) and type(b) is int and b > 8)
+            if big:
+                name = "powint" + context_statespace().uniq()
+        if big:         # int ** int never fails in CPython (arbitrary precision): unconstrained int
+            return proxy_for_type(int, name)
+        return pow(a, b, *m)
+    _core._PATCH_REGISTRATIONS[operator.pow] = _pow
+
     _FLOAT_DEFAULT = bl._PYTYPE_TO_WRAPPER_TYPE[float]
 
 
@@ -197,9 +251,10 @@ def set_float_mode(mode):
 
 MODELS = [
     "`sym in frozenset` as a linear scan of equalities (LinearSet)",
-    "f-string/str.format on log-call and print-call lines of excelcompiler.py/excelformula.py return a constant",
+    "f-string/str.format on log-call, print-call and capture_error_state-call lines of excelcompiler.py/excelformula.py/excelutil.py return a constant (diagnostic text only)",
     "int(symbolic float) routed to the proxy's __int__ (z3 ToInt)",
     "float as exact real, UNKNOWN cap of real-based floats lifted (obligations tagged float=real)",
+    "operator.pow(symbolic base, concrete exponent not a non-negative int): complex for negative base/fractional exponent, ZeroDivisionError for 0**negative, OverflowError beyond DBL_MAX**(1/b), otherwise an unconstrained float",
     "fix of SymbolicBoundedIntTuple._create_up_to (negative slice appended phantom characters)",
     "str.lower()/upper() of a symbolic code point < 128 as the 26-letter ASCII shift (others: CrossHair's Unicode model)",
 ]
